@@ -254,6 +254,43 @@ def _loop_over_decoders(func: ast.AST, call: str) -> bool:
     return False
 
 
+def credit_items(cls: ast.AST) -> Dict[str, bool]:
+    """fix ae15f0e: `_accept_data` gives back the window of data it drops after the local close()
+    (`if self._send_state in {'close_pending', 'closed'}:` → `self.send_packet(MSG_CHANNEL_WINDOW_ADJUST,
+    UInt32(len(data)))`, `return`), `_discard_recv` that of the buffer it discards (`if self._recv_buf_len:` →
+    `self.send_packet(MSG_CHANNEL_WINDOW_ADJUST, UInt32(self._recv_buf_len))`, before the buffer is emptied); neither
+    touches `_recv_window`"""
+    def body_of(name: str) -> List[ast.stmt]:
+        f = next(f for f in cls.body if isinstance(f, ast.FunctionDef) and f.name == name)      # type: ignore
+        return [b for b in f.body if not (isinstance(b, ast.Expr) and isinstance(b.value, ast.Constant))]
+    drop = False
+    for n in body_of('_accept_data'):
+        if isinstance(n, ast.If) and ast.unparse(n.test).replace('"', "'") in (
+                "self._send_state in {'close_pending', 'closed'}", "self._send_state in {'closed', 'close_pending'}"):
+            src = [ast.unparse(b) for b in n.body]
+            if src == ['self.send_packet(MSG_CHANNEL_WINDOW_ADJUST, UInt32(len(data)))', 'return']:
+                drop = True
+            elif src != ['return']:
+                raise T.Untranslatable('_accept_data: the branch for data after close is not what the model knows: '
+                                       + '; '.join(src))
+    body = body_of('_discard_recv')
+    src = [ast.unparse(b) for b in body]
+    discard = False
+    if 'self._recv_buf = []' not in src:
+        raise T.Untranslatable('_discard_recv: the buffer is no longer emptied by `self._recv_buf = []`')
+    k = src.index('self._recv_buf = []')
+    for j, n in enumerate(body):
+        if isinstance(n, ast.If) and ast.unparse(n.test) == 'self._recv_buf_len':
+            inner = [ast.unparse(b) for b in n.body]
+            if j < k and not n.orelse and \
+                    inner == ['self.send_packet(MSG_CHANNEL_WINDOW_ADJUST, UInt32(self._recv_buf_len))']:
+                discard = True
+            else:
+                raise T.Untranslatable('_discard_recv: the credit for discarded data is not what the model knows: '
+                                       + ast.unparse(n))
+    return {'drop': drop, 'discard': discard}
+
+
 def session_request_items(tree: ast.AST) -> Dict[str, Any]:
     """`SSHServerChannel._start_session`: is a shell / exec / subsystem request refused once one has succeeded
     (repair e7dbee0)?  First statement `if self._session_started:` whose body ends in `return False`; the flag is set
@@ -509,6 +546,15 @@ def generate(prop: str) -> Dict[str, Any]:
     out += f'def discardResetsDecoders : Bool := {T.lean_bool(tc["discard_resets_decoders"])}\n'
     out += f'def finalDecodeAllDecoders : Bool := {T.lean_bool(tc["final_decode_all_decoders"])}\n\n'
     try:
+        cr = credit_items(cls)
+    except (T.Untranslatable, StopIteration, AttributeError, IndexError) as e:
+        fallbacks.append(f'window credit: {e}')
+        cr = {'drop': True, 'discard': True}
+    out += '/-- `_accept_data`: data dropped after the local close() is credited with WINDOW_ADJUST(len(data));\n'
+    out += '    `_discard_recv`: the buffer thrown away is credited with WINDOW_ADJUST(_recv_buf_len) (fix ae15f0e) -/\n'
+    out += f'def dropCreditsWindow : Bool := {T.lean_bool(cr["drop"])}\n'
+    out += f'def discardCreditsWindow : Bool := {T.lean_bool(cr["discard"])}\n\n'
+    try:
         sr = session_request_items(tree)
     except (T.Untranslatable, StopIteration, AttributeError, IndexError) as e:
         fallbacks.append(f'session request: {e}')
@@ -543,7 +589,7 @@ def generate(prop: str) -> Dict[str, Any]:
     changed = vlib.write_if_changed(vlib.module_path(f'AsyncsshModel.Gen.{prop}'), out)
     return {'gen_file': f'Gen/{prop}.lean', 'changed': changed, 'decrement_sites': sites,
             'zero_pktsize_check': {'open': ho, 'confirm': hc}, 'text_codec': tc, 'session_request': sr,
-            'tunnel': tun, 'fallbacks': fallbacks, '_py': py}
+            'tunnel': tun, 'window_credit': cr, 'fallbacks': fallbacks, '_py': py}
 
 
 def self_test(prop: str, info: Dict[str, Any], rng: Any) -> List[str]:
